@@ -174,6 +174,8 @@ impl PersisterTask {
         while let Ok(request) = receiver.recv_async().await {
             match request {
                 PersisterTaskCommand::WriteRequest(batch_to_write) => {
+                    #[cfg(iggy_verif)]
+                    crate::verif::point("persister.write", batch_to_write.get_size_bytes().as_bytes_u64()).await;
                     match Self::write_with_retries(
                         &mut file,
                         &file_path,
